@@ -64,7 +64,7 @@ func registerIntrinsics(e *Engine) {
 	e.intr[vrtPath+".Bytes"] = func(st *State, fn *ssa.Function, args []Value, ret func(Value)) {
 		n := st.concInt(st.asT(args[0]), "Bytes(n)")
 		id := st.allocN(n, nil, fmt.Sprintf("input[%d]", n))
-		o := st.objs[id]
+		o := st.newObj(id)
 		o.Input = true
 		o.Cells = make(map[int64]Cell, n)
 		rec := NondetRec{Kind: "bytes"}
@@ -142,6 +142,16 @@ func registerIntrinsics(e *Engine) {
 		hi := c.Ule(c.Add(got.P.Off, got.Len), c.Add(buf.P.Off, buf.Len))
 		ret(c.BAnd(lo, c.BAnd(hi, c.Ule(got.Len, buf.Len))))
 	}
+	e.intr[vrtPath+".StrInBuf"] = func(st *State, fn *ssa.Function, args []Value, ret func(Value)) {
+		got, buf := args[0].(Str), args[1].(Slice)
+		if got.P.Obj != buf.P.Obj {
+			ret(c.Eq(got.Len, e.k64(0)))
+			return
+		}
+		lo := c.Ule(buf.P.Off, got.P.Off)
+		hi := c.Ule(c.Add(got.P.Off, got.Len), c.Add(buf.P.Off, buf.Len))
+		ret(c.BAnd(lo, c.BAnd(hi, c.Ule(got.Len, buf.Len))))
+	}
 	e.intr[vrtPath+".Freeze"] = func(st *State, fn *ssa.Function, args []Value, ret func(Value)) {
 		// Freeze(b []byte): mark the backing object read-only (any store is reported)
 		b := args[0].(Slice)
@@ -158,7 +168,7 @@ func registerIntrinsics(e *Engine) {
 				n := *o
 				n.RO = false
 				n.owner = -1
-				st.objs[b.P.Obj] = &n
+				st.setObj(b.P.Obj, &n)
 			}
 		}
 		ret(nil)
